@@ -93,14 +93,21 @@ func (cj *CookieJar) getCookiesByHost(host string) []*fasthttp.Cookie {
 	now := time.Now()
 	cookies := cj.hostCookies[host]
 
+	purged := false
 	for i := 0; i < len(cookies); i++ {
 		c := cookies[i]
 		// Remove expired cookies.
 		if !c.Expire().Equal(fasthttp.CookieExpireUnlimited) && c.Expire().Before(now) {
 			cookies = append(cookies[:i], cookies[i+1:]...)
 			fasthttp.ReleaseCookie(c)
+			purged = true
 			i--
 		}
+	}
+	if purged {
+		// The map still holds the old, longer slice header (and with it a released cookie):
+		// store the purged one. The key is copied, it may reference the caller's buffer.
+		cj.hostCookies[utils.CopyString(host)] = cookies
 	}
 
 	return cookies
